@@ -1592,6 +1592,69 @@ def check_update_output(chk, F):
     chk.floor(R, "cases", n, 110)
 
 
+# ---- R14.16 sanity_check ------------------------------------------------------------------------------------------------------------
+
+def check_sanity(chk, F):
+    import itertools
+    from .. import builtins as B
+    from ..builtins import deref
+    R = "R14.16"
+    chk.rule(R, "psbt::sanity_check (run before finalizing and extracting) accepts a PSBT exactly when the unsigned transaction has "
+                "as many inputs as the input map and, for every input, every partial signature carries a standard sighash flag "
+                "equal to the input's sighash type (SIGHASH_ALL when none is given; a non-standard PSBT sighash type is refused); "
+                "decision table over 2 inputs x declared type x the flags of up to two signatures")
+    try:
+        fn = F.fn("sanity_check", file="psbt/mod.rs")
+    except KeyError as e:
+        chk.fail(R, "anchor", "missing anchor %s" % e, kind="unanalysable")
+        return
+    chk.saw(fn)
+    STD = {1: "All", 2: "None", 3: "Single", 0x81: "AllPlusAnyoneCanPay"}
+    EST = "bitcoin::EcdsaSighashType"
+
+    def ty(v):
+        return Adt(EST, v, {})
+    h = {}
+    h["bitcoin::psbt::PsbtSighashType::ecdsa_hash_ty"] = lambda m_, a, c: ok(ty(STD[deref(a[0])[1]])) if deref(a[0])[1] in STD else err(Term("NonStandard", deref(a[0])[1]))
+    h["bitcoin::EcdsaSighashType::from_standard"] = lambda m_, a, c: ok(ty(STD[deref(a[0])])) if deref(a[0]) in STD else err(Term("NonStandard", deref(a[0])))
+    h["bitcoin::ecdsa::Signature::to_vec"] = lambda m_, a, c: PyVec([0] * 72)
+    saved = B.TRAIT_TABLE.get(("std::cmp::PartialEq", "ne"))
+    m = Machine(F, strict=True, hooks=h)
+    n = 0
+
+    def sig(flag):
+        # `sighash_type as u32` is the flag's number: the field holds it directly
+        return Adt("bitcoin::ecdsa::Signature", "Signature", {"signature": Term("sig"), "sighash_type": flag})
+    try:
+        decl = [None, 1, 3, 0x81, 0x42]
+        sigsets = [(), (1,), (3,), (1, 1), (1, 3), (0x81,), (0x42,), (3, 3)]
+        for n_tx, (d0, s0), (d1, s1) in itertools.product((2, 3), itertools.product(decl, sigsets), ((None, ()), (3, (3,)), (None, (2,)))):
+            ins = []
+            for i, (d, ss) in enumerate(((d0, s0), (d1, s1))):
+                inp = mk_input(i)
+                inp.fields["sighash_type"] = NONE if d is None else some(("psbt-ty", d))
+                inp.fields["partial_sigs"] = B.PyMap([("key%d_%d" % (i, j), sig(f_)) for j, f_ in enumerate(ss)])
+                ins.append(inp)
+            ps = mk_psbt(2, 0, list(range(n_tx)), ins)
+            r = m.call_path(fn, [ps])
+            n += 1
+
+            def input_ok(d, ss):
+                if d is not None and d not in STD:
+                    return False
+                target = STD[d] if d is not None else "All"
+                return all(f_ in STD and STD[f_] == target for f_ in ss)
+            want = n_tx == 2 and input_ok(d0, s0) and input_ok(d1, s1)
+            key = "tx-inputs=%d|in0=%s:%s|in1=%s:%s" % (n_tx, d0, ",".join(map(str, s0)) or "-", d1, ",".join(map(str, s1)) or "-")
+            chk.obligation(R, (r.variant == "Ok") == want, key, "sanity_check gives %s, expected %s" % (repr(r)[:120], "Ok" if want else "an error"),
+                           where="src/psbt/mod.rs")
+    except Unsupported as e:
+        chk.fail(R, "unanalysable", "unanalysable: %s" % e, where=e.where, kind="unanalysable")
+    except Panic as e:
+        chk.fail(R, "panic", "panic: %s" % e, where="src/psbt/mod.rs")
+    chk.floor(R, "cases", n, 200)
+
+
 def run(chk):
     F = chk.facts()
     chk.explanation = __doc__
@@ -1622,3 +1685,4 @@ def run(chk):
         chk.guard("R14.13", "update-input", check_update_input, chk, F)
         chk.guard("R14.14", "extract", check_extract, chk, F)
         chk.guard("R14.15", "update-output", check_update_output, chk, F)
+        chk.guard("R14.16", "sanity-check", check_sanity, chk, F)
